@@ -5,6 +5,23 @@ VERIF = os.path.dirname(os.path.dirname(os.path.abspath(__file__)))
 props = [json.loads(l) for l in open(os.path.join(VERIF, "properties.jsonl"))]
 
 CLAIMED = {
+    "C01": dict(
+        text="ModelLib.tla holds small linear RE models (structural equations, measurement block) with a reduced-form certificate that is not "
+             "trusted: LinearRE.tla simulates period by period and TLC checks in exact rational arithmetic, on every behaviour, that every "
+             "structural equation has zero residual with leads read from the model-consistent continuation (the property itself), that the steady "
+             "state is the fixed point, and that level = steady + deviation; root certificates are checked against the characteristic polynomials. "
+             "The model source emitted by the spec is parsed, solved and simulated by irispie; whole paths and root counts are compared.",
+        note="Trusted: TLC, scipy QZ/numpy primitives. Bounds: the library (rational roots, <= 2 states, lag/lead 1, log-variables, measurement with a "
+             "lagged state), 4 periods, shocks in {-1,1,2}. Complex roots, larger models and arbitrary parameters are out of bound.",
+        design="5/C01", technique="TLA+ spec (ModelLib, LinearRE) model-checked by TLC in exact rational arithmetic; every TLC-generated behaviour replayed into irispie"),
+    "C07": dict(
+        text="PlansMC.tla takes targets from an ordinary LinearRE simulation, endogenizes the same shocks (anticipated or unanticipated, prior "
+             "input 0 or 1/2), solves for the instruments through the exact impact matrix and TLC checks that they are the original shocks and that "
+             "the planned path satisfies the structural equations; every non-singular scenario is run through SimulationPlan + simulate(plan=...) "
+             "and compared (targets hit, shocks recovered, whole path, other shocks unchanged).",
+        note="Trusted: TLC, numpy primitives. Bounds: library models L1, L2, L3, L9; <= 2 (target, instrument) pairs; first-order method. Anticipated plans "
+             "are combined with anticipated base shocks only (mixing them with later surprises is not specified).",
+        design="5/C07", technique="TLA+ spec (PlansMC over LinearRE) model-checked by TLC; every TLC-computed scenario replayed into irispie"),
     "C18": dict(
         text="Ols.tla lays out the VAR regressors, selects exactly the complete periods and solves the normal equations exactly (LinSolve); TLC "
              "verifies the solution, the orthogonality of residuals to every regressor and the recovery of noise-free VARs. Every scenario is "
